@@ -1,4 +1,6 @@
 """HashMap histories (C12), iteration (C18) and string operation statements."""
+import re
+
 
 KEYS_EQUAL_GROUPS = [
     ["1", "1.0", "0.5 + 0.5", "3 - 2"], ["0", "-0", "0 * -1", "1 - 1"], ["2", "10 / 5"], ["0.1 + 0.2", "0.30000000000000004"],
@@ -41,6 +43,11 @@ def map_history(rng, nops=None):
             return r.choice(r.choice(groups))
         if c < 88:
             return r.choice(KEYS_NAN)
+        if c < 93:
+            # an unhashable key that is, or contains, one of the maps being operated on (formatting the rejected key for
+            # the error message looks at the receiver again)
+            mm = r.choice(maps)
+            return r.choice(["%s", "(1, %s)", "[%s]", "(%s,)", "{1: %s}", "((%s, 2), 3)"]) % mm
         return r.choice(KEYS_UNHASHABLE)
 
     for _ in range(nops or r.range(6, 40)):
@@ -69,7 +76,11 @@ def map_history(rng, nops=None):
         else:
             # churn the range cache so that equal-ended ranges become distinct objects
             st = "for q in 0..%d { var rr = (100 + q)..(200 + q); }" % r.range(1, 9)
-        L.append("try { %s } catch e { print(type(e)); print(e.context); }" % st)
+        if any(("(%s" % mm) in st or ("[%s]" % mm) in st or (": %s}" % mm) in st or ("(1, %s)" % mm) in st or re.search(r"\((insert|get|has_key|remove)\(%s[,)]" % mm, st.replace(".", "(")) for mm in maps):
+            # the message would quote a map with several entries, whose print order is unspecified
+            L.append("try { %s } catch e { print(type(e)); print(e.context.starts_with(\"Cannot use unhashable value\")); }" % st)
+        else:
+            L.append("try { %s } catch e { print(type(e)); print(e.context); }" % st)
     for m in maps:
         L.append("show_map(%s);" % m)
     return "\n".join(L) + "\n"
